@@ -195,6 +195,7 @@ def relevant_to(pid, d):
                 if 'field' not in c:
                     ms.add('C02')
             marks |= ms
+    own_marks = set(marks)
     if not marks:
         # no marker on the failed clause itself: the markers of the enclosing function's contract decide
         for c in d.get('contract_marks') or []:
@@ -209,6 +210,10 @@ def relevant_to(pid, d):
     panicky = any(c in msg for c in PANIC_CLASSES) and 'lemma' not in text
     if pid == 'C07':
         return panicky or 'C07' in marks
+    if panicky and not own_marks and any(k_ in msg for k_ in ('termination', 'decreases not satisfied', 'may not terminate')):
+        # a termination obligation (decreases) that carries no property marker of its own is C07's alone: that a function under contract for
+        # another property may now diverge says nothing about that property's clauses
+        return False
     if marks:
         return pid in marks
     return True
